@@ -243,6 +243,11 @@ func c10Retry(p *Prog, r *Report) {
 		if len(s.Call.Args) == 3 {
 			if o := objOf(info, s.Call.Args[2]); o != nil {
 				contentParam = o
+			} else {
+				// the source and the remembered size travel in the fields of a helper object (sp.content, sp.minSize)
+				// that its methods update: not a form the retry rule follows
+				r.Undecided("C10.a", kStoreSet+"#retry-stream", p.pos(s.Call), "the source of the content store is "+types.ExprString(s.Call.Args[2])+", a field of a helper object: the retry rule follows plain variables only")
+				continue
 			}
 		}
 		st := f.ErrStatesFrom(s.Node, s.ErrVar)
